@@ -62,6 +62,29 @@ CHECKS['C17'] = dict(
     technique='Lean 4 proof (parse/print round trip, get/set/frame laws, unbounded) + grammar enumeration and op-history differential',
     design='DESIGN.md §3 C17')
 
+CHECKS['C19'] = dict(
+    text='Lean theorems about the model of error_html: escape output contains no markup and every & starts a produced entity '
+         '(escape_no_markup), unescape(escape s) = s, stripping the markup of a segment line and decoding recovers line number, id and all '
+         'element values with the source delimiters (strip_recovers_segment), the markup of segment and message lines depends on shape only '
+         '(segment_line_escaped, messages_escaped), one segment line per reader segment in order (every_segment_once_in_order). Tied to '
+         '/repo by generated documents with faults, markup characters in data, odd segment ids and exotic delimiters: the real HTML is '
+         'tokenised, compared line by line with the model, and every error of the captured error tree must appear next to its segment. '
+         'Completeness of the err_iter cursor is decided by that oracle, not proved (known findings listed).',
+    note=COMMON_NOTE + ' PARTIAL: which errors reach gen_seg (the err_iter cursor) is checked on the real code only.',
+    technique='Lean 4 proof (escaping, strip/unescape recovery, one line per segment) + HTML tokeniser oracle and model differential',
+    design='DESIGN.md §3 C19')
+CHECKS['C18'] = dict(
+    text='Lean model of the cross-run state reachable through mutable default arguments (8 cells) with theorems inv_preserved, '
+         'run_independent_of_history, history_independent: no modelled operation writes a cell, so any run observes what a fresh process '
+         'observes. The model\'s premises are checked on every run: introspection of all package functions for mutable defaults must equal '
+         'the modelled cell list, an AST scan must find no in-place mutation of a default-bound name or alias, the cells and all '
+         'module-level containers must be unchanged after the run. Histories of generated documents (mixed maps/versions, repeats, reused '
+         'params) are compared result by result (verdict, errors, XML, HTML, ack body, context-reader iteration) with a fresh interpreter.',
+    note=COMMON_NOTE + ' PARTIAL: interpreter-level state outside the model (logging, sys.path, stdlib caches) cannot be exhibited by the '
+         'model and is only exercised by the history runs.',
+    technique='Lean 4 proof (no write to cross-run cells => history independence) + introspection/AST premises + history vs fresh-process differential',
+    design='DESIGN.md §3 C18')
+
 PENDING_REASON = 'check under construction in this session (see DESIGN.md §3); not yet claimed'
 
 
